@@ -1,5 +1,5 @@
 From Coq Require Import Extraction ExtrOcamlBasic ZArith List.
 From LP Require Import Num C15_Model.
 Extraction Language OCaml.
-Extraction "C15_m.ml" householder qr_decomposition eigenvalues determinant inverse find_eigenvector_rayleigh eigensystem
+Extraction "C15_m.ml" householder qr_decomposition eigenvalues determinant inverse find_eigenvector_rayleigh eigensystem session
   nrows Z.of_nat Z.to_nat.
